@@ -219,6 +219,26 @@ impl Terminal {
 
     /// Read keys until newline.
     fn read_line_raw(&mut self) {
+        #[cfg(lace_verif)]
+        if crate::verif::keys_armed() {
+            loop {
+                let key = crate::verif::next_key();
+                let key_name = format!("{:?}", key);
+                let eol = self.handle_key(key);
+                crate::verif::key_done(
+                    key_name,
+                    self.buffer.clone(),
+                    self.get_current().to_string(),
+                    self.visible_cursor,
+                    self.history.index,
+                    eol,
+                );
+                if eol {
+                    break;
+                }
+            }
+            return;
+        }
         term::enable_raw_mode();
         loop {
             // Technically redrawing of prompt could be avoided, but this method makes it much
@@ -284,6 +304,34 @@ impl Read for Terminal {
             self.read_line();
         }
         Some(self.get_next_command())
+    }
+}
+
+#[cfg(lace_verif)]
+impl Terminal {
+    /// Terminal with the given history list and no history file.
+    pub fn verif_new(history: Vec<String>) -> Self {
+        let index = history.len();
+        Self {
+            stderr: io::stderr(),
+            buffer: String::with_capacity(INITIAL_BUFFER_CAPACITY),
+            cursor: 0,
+            visible_cursor: 0,
+            history: TerminalHistory {
+                list: history,
+                index,
+                file: None,
+            },
+        }
+    }
+
+    /// Next command, as `CommandReader` would obtain it from an interactive terminal.
+    pub fn verif_read(&mut self) -> Option<String> {
+        self.read().map(|command| command.to_string())
+    }
+
+    pub fn verif_history(&self) -> Vec<String> {
+        self.history.list.clone()
     }
 }
 
